@@ -93,7 +93,8 @@ def main():
         meta['confirmation'] = res
         if ok:
             pid_, _, k_ = name.partition('_')
-            dst = os.path.join(VERIF, 'seeded', f'{pid_}_r{rnd}_{k_}' if rnd else name)
+            pid3, suffix = pid_[:3], pid_[3:]          # (C16b_2 of round 10 is stored as C16_r10_b2)
+            dst = os.path.join(VERIF, 'seeded', f'{pid3}_r{rnd}_{suffix}{k_}' if rnd else name)
             os.makedirs(dst, exist_ok=True)
             shutil.copy(patch, dst)
             shutil.copy(demo, dst)
